@@ -2,6 +2,12 @@
 
 package io
 
+import (
+	"time"
+
+	"github.com/alpacahq/marketstore/v4/utils"
+)
+
 // Contracts for package utils/io, checked by /verif/govc (contract-based deductive verification).
 // This file is compiled only with -tags=verif. The //@ lines are the contracts; the Go functions
 // below are lemmas (verified like any function, calls use the callees' contracts) and canaries.
@@ -58,10 +64,83 @@ func verifAssume(bool) {}
 //@ func ToSystemTimezone
 //@ inline
 
+// ---------------------------------------------------------------------------------------------
+// C30: interval index <-> time <-> file offset.  Z = utils.InstanceConfig.Timezone, dayNs = 86400e9.
+
+//@ import utils @/utils
+
 //@ func IndexToOffset
 //@ props C30 C08
 //@ ensures #spec: result == wrap64(wrap64((index-1)*recordSize) + Headersize)
-//@ ensures #exact: (1 <= index && index <= 366*86400 && 0 <= recordSize) ==> result == (index-1)*recordSize + Headersize
+//@ ensures #exact: (0 <= index && index <= 366*86400 && 0 <= recordSize) ==> result == (index-1)*recordSize + Headersize
+
+//@ func TimeToIndex
+//@ props C30 C08
+//@ option nooverflow
+//@ requires #tf: tf > 0
+//@ ensures #subday: tf != 86400000000000 ==> result == 1 + (abs(t) - civilYearStart(civilYear(abs(t), utils.InstanceConfig.Timezone), utils.InstanceConfig.Timezone)) / tf
+//@ ensures #daily: tf == 86400000000000 ==> result == civilYearDay(abs(t), utils.InstanceConfig.Timezone) - 1
+
+//@ func IndexToTime
+//@ props C30 C08
+//@ option nooverflow
+//@ requires #tf: tf > 0
+//@ requires #inYear: tf != 86400000000000 ==> (1 <= index && tf*(index-1) <= 366*86400000000000)
+//@ requires #dailyIdx: tf == 86400000000000 ==> (0 <= index && index <= 366)
+//@ ensures #loc: loc(result) == utils.InstanceConfig.Timezone
+//@ ensures #subday: tf != 86400000000000 ==> abs(result) == civilYearStart(year, utils.InstanceConfig.Timezone) + tf*(index-1)
+//@ ensures #daily: tf == 86400000000000 ==> abs(result) == civilYearStart(year, utils.InstanceConfig.Timezone) + index*86400000000000
+
+//@ func TimeToOffset
+//@ props C30
+//@ requires #tf: tf > 0
+//@ ensures #compose: result == wrap64(wrap64((TimeToIndexSpec(abs(t), tf, utils.InstanceConfig.Timezone)-1)*recordSize) + Headersize)
+
+//@ ghost func TimeToIndexSpec(a int, tf int, z int) int = ite(tf == 86400000000000, civilYearDay(a, z) - 1, 1 + (a - civilYearStart(civilYear(a, z), z)) / tf)
+
+//@ func nanosecondsInYear
+//@ props C30
+//@ requires #year: 0 <= year && year <= 32767
+//@ ensures #len: result == civilYearStart(year+1, time.Local) - civilYearStart(year, time.Local)
+
+//@ func FileSize
+//@ props C30
+//@ requires #tf: tf > 0
+//@ requires #rs: 0 <= recordSize && recordSize < 2147483648
+//@ requires #year: 0 <= year && year <= 32767
+//@ ensures #size: result == Headersize + ((civilYearStart(year+1, time.Local) - civilYearStart(year, time.Local)) / tf) * recordSize
+
+// ---------------------------------------------------------------------------------------------
+// C28 / C06: data shape (column schema) codec
+
+//@ func Serialize
+//@ trusted "reflect + unsafe (DataToByteSlice): appends the little-endian bytes of the datum; contract stated per dynamic kind for int8, uint8, int16, int32, int64, string and []byte only"
+//@ modifies mem:byte
+//@ ensures #ok: (kindis(datum, "int8") || kindis(datum, "uint8") || kindis(datum, "int16") || kindis(datum, "int32") || kindis(datum, "int64") || kindis(datum, "string") || kindis(datum, "bytes")) ==> result1 == nil
+//@ ensures #len1: (kindis(datum, "int8") || kindis(datum, "uint8")) ==> len(result0) == len(buffer) + 1
+//@ ensures #len2: kindis(datum, "int16") ==> len(result0) == len(buffer) + 2
+//@ ensures #len4: kindis(datum, "int32") ==> len(result0) == len(buffer) + 4
+//@ ensures #len8: kindis(datum, "int64") ==> len(result0) == len(buffer) + 8
+//@ ensures #lenS: kindis(datum, "string") ==> len(result0) == len(buffer) + len(asstr(datum))
+//@ ensures #lenB: kindis(datum, "bytes") ==> len(result0) == len(buffer) + len(asbytes(datum))
+//@ ensures #prefix: forall(i, 0, len(buffer), result0[i] == old(buffer[i]))
+//@ ensures #v8: kindis(datum, "int8") ==> sle8(result0, len(buffer)) == asint(datum)
+//@ ensures #vu8: kindis(datum, "uint8") ==> result0[len(buffer)] == asint(datum)
+//@ ensures #v16: kindis(datum, "int16") ==> sle16(result0, len(buffer)) == asint(datum)
+//@ ensures #v32: kindis(datum, "int32") ==> sle32(result0, len(buffer)) == asint(datum)
+//@ ensures #v64: kindis(datum, "int64") ==> sle64(result0, len(buffer)) == asint(datum)
+//@ ensures #vS: kindis(datum, "string") ==> forall(i, 0, len(asstr(datum)), result0[len(buffer)+i] == asstr(datum)[i])
+//@ ensures #vB: kindis(datum, "bytes") ==> forall(i, 0, len(asbytes(datum)), result0[len(buffer)+i] == old(asbytes(datum)[i]))
+//@ ensures #place: result0 != nil && (fresh(result0) || base(result0) == base(buffer))
+//@ ensures #frame: forallint(a, pattern(mem(result0)[a]), (a < base(result0) || a >= base(result0) + len(result0)) ==> mem(result0)[a] == old(mem(buffer))[a])
+
+//@ func (*DataShape).toBytes
+//@ props C28
+//@ ensures #err: result1 == nil
+//@ ensures #len: len(result0) == 2 + len(ds.Name)
+//@ ensures #lenByte: result0[0] == mod(len(ds.Name), 256)
+//@ ensures #name: forall(i, 0, len(ds.Name), result0[1+i] == ds.Name[i])
+//@ ensures #type: result0[1+len(ds.Name)] == ds.Type
 
 //@ func dsFromBytes
 //@ props C28 C06
@@ -70,6 +149,7 @@ func verifAssume(bool) {}
 //@ ensures #cursor: cursor == 2 + buf[0]
 //@ ensures #type: ds.Type == buf[1+buf[0]]
 //@ ensures #namelen: len(ds.Name) == buf[0]
+//@ ensures #name: forall(i, 0, buf[0], ds.Name[i] == buf[1+i])
 
 //@ func ToString
 //@ props C28 C06
@@ -78,11 +158,19 @@ func verifAssume(bool) {}
 //@ ensures len(result) == len(b)
 //@ ensures forall(i, 0, len(b), result[i] == b[i])
 
-//@ func DSVFromBytes
-//@ props C28 C06
-//@ requires #wf: buf == nil || (len(buf) >= 1 && gf_dsvWF(buf))
-//@ loop 0 invariant 0 <= i && i <= dsLen && 1 <= cursor && cursor <= len(buf)
-//@ ensures buf != nil ==> len(dataShape) == buf[0]
+// decode(encode(ds)) == ds exactly when the name fits the one-byte length prefix
+func lemmaDSRoundTrip(ds DataShape) {
+	b, _ := ds.toBytes()
+	d, n := dsFromBytes(b)
+	verifAssert(n == len(b))       // #consumedAll
+	verifAssert(d.Type == ds.Type) // #type
+	verifAssert(d.Name == ds.Name) // #name
+}
+
+//@ lemma lemmaDSRoundTrip
+//@ props C28
+//@ option strext
+//@ requires #nameFits: len(ds.Name) <= 255
 
 func lemmaCanaryOffset(index int64, rs int32) {
 	verifAssert(IndexToOffset(index, rs) > IndexToOffset(index+1, rs)) // #canary
@@ -91,3 +179,68 @@ func lemmaCanaryOffset(index int64, rs int32) {
 //@ lemma lemmaCanaryOffset
 //@ props CANARY
 //@ requires 1 <= index && index <= 1000 && 0 <= rs
+
+// ---- C30 lemmas (Go functions verified against the contracts above) ----
+
+// Sub-day timeframes: index -> time -> index is the identity, and time -> index -> time is the start of
+// the interval containing the time.
+func lemmaIndexRoundTrip(t time.Time, tf time.Duration) {
+	z := utils.InstanceConfig.Timezone
+	idx := TimeToIndex(t, tf)
+	y := int16(t.In(z).Year())
+	verifAssert(idx >= 1)                                       // #indexAtLeastOne
+	verifAssert((idx-1)*int64(tf) < 366*86400000000000)         // #indexWithinYear
+	s := IndexToTime(idx, tf, y)
+	verifAssert(!s.After(t))                                    // #startNotAfter
+	verifAssert(t.Sub(s) < tf)                                  // #withinInterval
+	verifAssert(TimeToIndex(s, tf) == idx)                      // #indexOfStart
+}
+
+//@ lemma lemmaIndexRoundTrip
+//@ props C30 C08
+//@ requires tf > 0 && tf < 86400000000000 && 86400000000000 % tf == 0
+//@ requires 1 <= civilYear(abs(t), utils.InstanceConfig.Timezone) && civilYear(abs(t), utils.InstanceConfig.Timezone) <= 32767
+
+// Distinct intervals of one year get distinct slots; equal slots mean the same interval.
+func lemmaIndexInjective(t1, t2 time.Time, tf time.Duration) {
+	i1 := TimeToIndex(t1, tf)
+	i2 := TimeToIndex(t2, tf)
+	if i1 == i2 {
+		d := t1.Sub(t2)
+		verifAssert(d < tf && -d < tf) // #sameSlotSameInterval
+	}
+	if !t1.After(t2) {
+		verifAssert(i1 <= i2) // #monotone
+	}
+}
+
+//@ lemma lemmaIndexInjective
+//@ props C30 C08
+//@ requires tf > 0 && tf < 86400000000000
+//@ requires civilYear(abs(t1), utils.InstanceConfig.Timezone) == civilYear(abs(t2), utils.InstanceConfig.Timezone)
+
+// Every slot of a sub-day timeframe lies in the data area of the year's file (needs A-TZ: the year has the same
+// length in the process-local zone used by FileSize and in the configured zone).
+func lemmaSlotInDataArea(t time.Time, tf time.Duration, recordSize int32) {
+	z := utils.InstanceConfig.Timezone
+	y := t.In(z).Year()
+	off := TimeToOffset(t, tf, recordSize)
+	verifAssert(off >= Headersize)                                       // #afterHeader
+	verifAssert(off+int64(recordSize) <= FileSize(tf, y, int(recordSize))) // #insideFile
+}
+
+//@ lemma lemmaSlotInDataArea
+//@ props C30 C08
+//@ requires tf > 0 && tf < 86400000000000 && 86400000000000 % tf == 0 && recordSize >= 0
+//@ requires civilYearStart(civilYear(abs(t), utils.InstanceConfig.Timezone)+1, utils.InstanceConfig.Timezone) - civilYearStart(civilYear(abs(t), utils.InstanceConfig.Timezone), utils.InstanceConfig.Timezone) == civilYearStart(civilYear(abs(t), utils.InstanceConfig.Timezone)+1, time.Local) - civilYearStart(civilYear(abs(t), utils.InstanceConfig.Timezone), time.Local)
+
+// Daily timeframe: the slot of 1 January is index 0, i.e. the reader's hole marker and an offset inside the header.
+func lemmaDailySlotInDataArea(t time.Time, recordSize int32) {
+	idx := TimeToIndex(t, utils.Day)
+	verifAssert(idx >= 1)                                       // #dailyIndexAtLeastOne
+	verifAssert(IndexToOffset(idx, recordSize) >= Headersize)   // #dailyAfterHeader
+}
+
+//@ lemma lemmaDailySlotInDataArea
+//@ props C30 C08
+//@ requires recordSize >= 0
